@@ -5,13 +5,33 @@ Local Open Scope N_scope.
 
 (* the whole way from the entry point: every RFC spelling (Spec.enc_fetch: keyword and NIL case, leading zeros,
    quoted or literal strings, optional space between addresses, doubled space after RFC822.HEADER, trailing spaces)
-   of a FETCH response with ENVELOPE / UID / RFC822.SIZE / RFC822 / RFC822.TEXT / RFC822.HEADER / MODSEQ /
-   X-GM-MSGID items is consumed exactly and yields exactly that value -- every field in its own slot, every list
+   of a FETCH response with ENVELOPE / FLAGS / INTERNALDATE / UID / RFC822.SIZE / RFC822 / RFC822.TEXT /
+   RFC822.HEADER / MODSEQ / X-GM-MSGID items is consumed exactly and yields exactly that value -- every field in its own slot, every list
    element present and in order, every number and byte string unchanged; whatever follows is left untouched *)
 Theorem c03_fetch_roundtrip : forall v w, enc_fetch v w -> forall rest, parse (w ++ rest) = ROk rest v (nlen w).
 Proof. exact fetch_roundtrip. Qed.
 Check c03_fetch_roundtrip : forall v w, enc_fetch v w -> forall rest, parse (w ++ rest) = ROk rest v (nlen w).
 Print Assumptions c03_fetch_roundtrip.
+
+(* other untagged data: n EXISTS / n RECENT / n EXPUNGE, VANISHED [(EARLIER)] with a sequence set in any order of
+   range ends, QUOTA with its resources (name, usage, limit in their slots; one or more SP / HTAB between parts) *)
+Theorem c03_data_roundtrip : forall v w, enc_data_response v w -> forall rest, parse (w ++ rest) = ROk rest v (nlen w).
+Proof. exact data_roundtrip. Qed.
+Check c03_data_roundtrip : forall v w, enc_data_response v w -> forall rest, parse (w ++ rest) = ROk rest v (nlen w).
+Print Assumptions c03_data_roundtrip.
+
+(* status responses `* OK/NO/BAD/PREAUTH/BYE [code] text` (codes ALERT, PARSE, READ-ONLY, READ-WRITE, TRYCREATE,
+   UIDVALIDITY, UIDNEXT, UNSEEN, HIGHESTMODSEQ): the separator after the code is cut exactly once, the text is verbatim *)
+Theorem c03_status_roundtrip : forall v w, enc_status_response v w -> forall rest, parse (w ++ rest) = ROk rest v (nlen w).
+Proof. exact status_roundtrip. Qed.
+Check c03_status_roundtrip : forall v w, enc_status_response v w -> forall rest, parse (w ++ rest) = ROk rest v (nlen w).
+Print Assumptions c03_status_roundtrip.
+
+(* tagged completions `tag SP status [SP resp-text] CRLF` *)
+Theorem c03_tagged_roundtrip : forall v w, enc_tagged_response v w -> forall rest, parse (w ++ rest) = ROk rest v (nlen w).
+Proof. exact tagged_roundtrip. Qed.
+Check c03_tagged_roundtrip : forall v w, enc_tagged_response v w -> forall rest, parse (w ++ rest) = ROk rest v (nlen w).
+Print Assumptions c03_tagged_roundtrip.
 
 (* the same for the parser functions below it, at any nesting depth, for every loop bound and sufficient fuel *)
 Theorem c03_envelope_slots : forall v w d, enc_envelope v w -> Ok native_call env rk (Ref f_rfc3501_x_envelope DSame) d w v any.
